@@ -355,6 +355,34 @@ def stream_parity_sequence(ctx, res, n_seq):
                                       "code": {"trace": code_trace, "res": code_vals}})
 
 
+def oracle_parity_repeated(ctx, res):
+    """model-free: with room for exactly ONE ancilla (max_qubits = n + 1) many consecutive calls must all
+    succeed — every call has to give its ancilla back"""
+    from harness import pipeline_sv as P
+    tb = _tb()
+    rng = ctx.rng
+    for n in (2, 3):
+        calls = ["".join(rng.choice("XYZ") for _ in range(n)) for _ in range(6)]
+        res.evaluations += 1
+        res.count("oracle:parity-repeated")
+        res.nontrivial.add(("parity-repeated", n, tuple(calls)))
+        s = P.Session(simulate=False, max_qubits=n + 1)
+        done = 0
+        try:
+            qs = s.qubits(n)
+            for b in calls:
+                tb.parity_meas(qs, b)
+                s.flush()
+                done += 1
+        except Exception as exc:  # the property fails on the real code: record the failing history
+            res.failures.append({"what": "repeated parity_meas on the same qubits stops working", "kf": None,
+                                 "input": {"qubits": n, "max_qubits": n + 1, "calls": calls,
+                                           "failed_at_call": done + 1,
+                                           "error": f"{type(exc).__name__}: {str(exc)[:160]}"}})
+        finally:
+            s.close()
+
+
 def gate_unitary(seq, nq):
     from harness import nvgates as G
     return G.seq_unitary(seq, nq)
@@ -428,6 +456,7 @@ def run(ctx):
     oracle_set_state(ctx, res)
     oracle_parity(ctx, res, short + (all_strings(4) + longer[:40] if ctx.thorough else longer[:6]))
     oracle_parity_sequences(ctx, res, short)
+    oracle_parity_repeated(ctx, res)
     stream_parity_model(ctx, res, (short if ctx.thorough else short[::4]) + longer)
     stream_parity_sequence(ctx, res, 400 if ctx.thorough else 60)
     stream_pullback(ctx, res, short + [s for s in longer if len(s) <= 4])
@@ -441,6 +470,8 @@ def replay(ctx, payload):
     oracle_gates(ctx, res)
     oracle_set_state(ctx, res)
     oracle_parity(ctx, res, all_strings(1) + all_strings(2) + all_strings(3))
+    oracle_parity_sequences(ctx, res, all_strings(1) + all_strings(2) + all_strings(3))
+    oracle_parity_repeated(ctx, res)
     want = (payload.get("failure") or {}).get("what")
     still = [f for f in res.failures if want is None or f["what"] == want]
     for f in still[:3]:
